@@ -1,4 +1,5 @@
 import Tcs.Props.C02
+import Tcs.Proofs.NoWrite
 namespace Tcs
 
 /-! # C18 – reads and rejected writes leave stored state untouched -/
@@ -60,6 +61,65 @@ theorem C18_noop {σ} (I : Impl σ) (S : Sys) (hS : S.ensure = ensureClientFixed
     simp only [asStep, hc] at h ⊢
     rw [C18_spec S e _ h, C18_no_id e _ h]
     simp [upd_self]
+
+/-- **Table level.** On any backend whose read calls are pure (both shipped backends: `readsPure_sql`,
+    `readsPure_mem`), from ANY state – no invariant, no reachability –, a single-transaction request that completes
+    with a non-mutating outcome leaves the backend's concrete state (the two SQL tables row for row, the four hash
+    maps entry for entry) exactly as it was: such an outcome is only ever returned on a path that made no write call
+    and no commit. (The HTTP AddVersion answers a conflict from its first transaction, which is the `avLib` case.) -/
+theorem C18_tables {σ} (B : Backend σ) (hB : ReadsPure B) (mode : TxnMode) (S : Sys) (e : Ev) (s : σ)
+    (he : match e with | .gcv .. | .gs .. | .as .. | .avLib .. => True | _ => False)
+    (hok : ((e.req S).runC B mode s).2.2 = true)
+    (h : nonMutating e ((e.req S).runC B mode s).1 = true) :
+    ((e.req S).runC B mode s).2.1 = s := by
+  have key : ∀ {α : Type} (c : Uuid) (body : TxnM (Except SrvErr α)) (f : α → Out) (P : Except SrvErr α → Prop),
+      ReadOnlyUnless P body → ((one c body f).runC B mode s).2.2 = true →
+      (∀ x, P x → nonMutating e (match x with | .ok a => f a | .error _ => .noSuchClient) = false) →
+      nonMutating e ((one c body f).runC B mode s).1 = true → ((one c body f).runC B mode s).2.1 = s := by
+    intro α c body f P hro hflag hP hnm
+    unfold one at hflag hnm ⊢
+    simp only [ReqM.runC] at hflag hnm ⊢
+    generalize hr : body.run B mode c s = q at hflag hnm ⊢
+    obtain ⟨r, s'⟩ := q
+    simp only at hflag hnm ⊢
+    cases r with
+    | none => simp [ReqM.runC] at hflag
+    | some x =>
+      have hx : ¬ P x := by
+        intro hpx
+        have := hP x hpx
+        cases x with
+        | ok a => simp only [ReqM.runC] at hnm; rw [this] at hnm; cases hnm
+        | error er => cases er; simp only [ReqM.runC] at hnm; rw [this] at hnm; cases hnm
+      have := run_readOnly B hB mode c P body hro s s' x hr hx
+      cases x with
+      | ok a => simp only [ReqM.runC]; exact this
+      | error er => cases er; simp only [ReqM.runC]; exact this
+  cases e with
+  | gcv c p => exact key c _ gcvOut _ (rou_getChildVersion p) hok (fun x hx => absurd hx id) h
+  | gs c => exact key c _ gsOut _ rou_getSnapshot hok (fun x hx => absurd hx id) h
+  | «as» c v d now =>
+    refine key c _ .asDone _ (rou_addSnapshot S.params v d now) hok ?_ h
+    intro x hx; subst hx; rfl
+  | avLib c p seg n now =>
+    refine key c _ avOut _ (rou_addVersion S.cfg p seg n now) hok ?_ h
+    rintro x ⟨v, u, rfl⟩; rfl
+  | av c p seg n now => exact absurd he id
+  | create c => exact absurd he id
+  | reopen => exact absurd he id
+
+/-- the two shipped backends -/
+theorem C18_tables_sql (S : Sys) (e : Ev) (s : Sql)
+    (he : match e with | .gcv .. | .gs .. | .as .. | .avLib .. => True | _ => False)
+    (hok : ((e.req S).runC SqlB .snapshotCommit s).2.2 = true)
+    (h : nonMutating e ((e.req S).runC SqlB .snapshotCommit s).1 = true) :
+    ((e.req S).runC SqlB .snapshotCommit s).2.1 = s := C18_tables SqlB readsPure_sql _ S e s he hok h
+
+theorem C18_tables_mem (S : Sys) (e : Ev) (s : Mem)
+    (he : match e with | .gcv .. | .gs .. | .as .. | .avLib .. => True | _ => False)
+    (hok : ((e.req S).runC MemB .inPlace s).2.2 = true)
+    (h : nonMutating e ((e.req S).runC MemB .inPlace s).1 = true) :
+    ((e.req S).runC MemB .inPlace s).2.1 = s := C18_tables MemB readsPure_mem _ S e s he hok h
 
 example : nonMutating (.gcv ⟨1⟩ ⟨2⟩) .gone = true ∧ nonMutating (.av ⟨1⟩ ⟨2⟩ ByteArray.empty ⟨3⟩ 0) (.avOk ⟨3⟩ .high) = false := by decide
 
